@@ -659,6 +659,13 @@ def bimap_put(eng, bm, key, val, node):
 
 def unpack(eng, val, n):
     c = cell(eng, val)
+    if isinstance(c, P) and c.ty.kind == "opq":
+        h = eng.reg.ext.get("unpack." + c.ty.args[0])
+        if h is not None:
+            items = h(eng, [c], {}, None)
+            if len(items) != n:
+                raise RaiseSig("ValueError")
+            return items
     if isinstance(c, TupV):
         if len(c.items) != n:
             raise RaiseSig("ValueError")
